@@ -19,6 +19,12 @@ operations incl. undo/redo on the real object):
   C15  random selections (empty, roots, leaves below divisions, several lineages, all, random),
        CSV and GEFF, with/without segmentation.  oracle: brute-force ancestors closure with
        networkx on a copy; exported rows / ids / edges / arrays.  correspondence: files vs model.
+       For most C15 cases (and a quarter of the C14/C16 cases) the SAME object is then edited again
+       (short session rich in count-preserving re-linkings: delete-edge + add-edge to another
+       parent, swap predecessors, undo/redo) and exported again — same selections and fresh ones —
+       with oracle (closure on the CURRENT graph) and correspondence after every export; an export
+       that writes the closure of the graph as it was BEFORE the edit is reported as
+       `C15|<fmt>|stale-ancestors-after-edit`.
   C16  deep snapshot before/after every read-only operation (exports full+subset, save, every
        public getter).  correspondence: model `runRO` output and post-state vs the real call.
 
@@ -124,6 +130,47 @@ def gen_ops(rng: random.Random, ses: Session, nops: int) -> list[dict]:
                 continue
         ses.apply(op)  # may raise Hang
         ops.append({k: v for k, v in op.items() if k != "groups"})
+    return ops
+
+
+def gen_relink_ops(rng: random.Random, ses: Session, n: int) -> list[dict]:
+    """short editing session on a live object, biased to edits that change ancestry while keeping
+    the node and edge COUNTS: move a node to another parent (delete-edge + add-edge), swap
+    predecessors, undo/redo; ops are applied while generated"""
+    ops: list[dict] = []
+    for _ in range(n):
+        g = ses.tracks.graph
+        r = rng.random()
+        cand: list[dict] = []
+        if r < 0.45:
+            edges = list(g.edges)
+            rng.shuffle(edges)
+            for p, c in edges:
+                tc = g.nodes[c]["time"]
+                alts = [q for q in g.nodes if q != p and q != c and g.nodes[q]["time"] < tc and g.out_degree(q) < 2]
+                if alts:
+                    q = rng.choice(alts)
+                    cand = [{"op": "deledge", "u": int(p), "v": int(c)},
+                            {"op": "addedge", "u": int(q), "v": int(c), "force": 0}]
+                    break
+        elif r < 0.6:
+            withp = [x for x in g.nodes if g.in_degree(x) == 1]
+            if len(withp) >= 2:
+                a, b = rng.sample(withp, 2)
+                cand = [{"op": "swap", "a": int(a), "b": int(b)}]
+        elif r < 0.8:
+            cand = [{"op": "undo"}]
+        elif r < 0.9:
+            cand = [{"op": "redo"}]
+        if not cand:
+            op = G.gen_op(rng, ses.case, ses.tracks, ["addedge", "deledge", "addnode", "delnode", "undo"])
+            if op["op"] == "addedge" and op["u"] in g and op["v"] in g and \
+                    g.nodes[op["u"]]["time"] >= g.nodes[op["v"]]["time"]:
+                continue
+            cand = [{k: v for k, v in op.items() if k != "groups"}]
+        for op in cand:
+            ses.apply(copy.deepcopy(op))  # may raise Hang
+            ops.append(op)
     return ops
 
 
@@ -921,8 +968,29 @@ def gen_selections(rng: random.Random, g: nx.DiGraph) -> list[tuple[str, list[in
     return out
 
 
+def _nodeset_fails(fmt: str, ids: set, keep: set, sel, stale_g) -> list[tuple[str, str]]:
+    """oracle for the exported node set; `stale_g` = the graph as it was before the last edits"""
+    if ids == keep:
+        return []
+    if stale_g is not None:
+        old = closure(stale_g, [n for n in sel if n in stale_g]) | set(sel)
+        if ids == old:
+            return [(f"C15|{fmt}|stale-ancestors-after-edit",
+                     f"selection {sorted(sel)}: exported {sorted(ids)} = selection + ancestors in the graph as it was "
+                     f"BEFORE the last edits; in the current graph they are {sorted(keep)}")]
+    out = []
+    if ids - keep:
+        out.append((f"C15|{fmt}|extra-node", f"selection {sorted(sel)}: nodes {sorted(ids - keep)} are neither selected "
+                    f"nor ancestors (expected {sorted(keep)})"))
+    if keep - ids:
+        miss = sorted(keep - ids)
+        out.append((f"C15|{fmt}|" + ("missing-selected-node" if set(miss) & set(sel) else "missing-ancestor"),
+                    f"selection {sorted(sel)}: nodes {miss} not exported (expected {sorted(keep)})"))
+    return out
+
+
 def check_c15(tracks, rng: random.Random, co: CaseOut, selections=None, model: bool = True,
-              fmts=("csv", "geff")) -> None:
+              fmts=("csv", "geff"), stale_g=None, malformed: bool = True) -> None:
     export_to_csv, export_to_geff = _ft()[0], _ft()[1]
     g = tracks.graph.copy()
     T = table(tracks)
@@ -972,13 +1040,11 @@ def check_c15(tracks, rng: random.Random, co: CaseOut, selections=None, model: b
                 ids = [int(r_[ix["id"]]) for r_ in rows]
                 if len(ids) != len(set(ids)):
                     co.fail("C15|csv|duplicate-rows", f"selection {sorted(sel)}: ids {ids}")
-                if set(ids) - keep:
-                    co.fail("C15|csv|extra-node", f"selection {sorted(sel)}: rows {sorted(set(ids) - keep)} are neither "
-                            f"selected nor ancestors (expected {sorted(keep)})")
-                if keep - set(ids):
-                    miss = sorted(keep - set(ids))
-                    co.fail("C15|csv|" + ("missing-selected-node" if set(miss) & set(sel) else "missing-ancestor"),
-                            f"selection {sorted(sel)}: nodes {miss} not exported (expected {sorted(keep)})")
+                nf = _nodeset_fails("csv", set(ids), keep, sel, stale_g)
+                for sg, w in nf:
+                    co.fail(sg, w)
+                if nf and nf[0][0].endswith("stale-ancestors-after-edit"):
+                    continue  # everything else in this file is a consequence
                 got_edges = set()
                 for r_ in rows:
                     p = r_[ix["parent_id"]]
@@ -1025,12 +1091,11 @@ def check_c15(tracks, rng: random.Random, co: CaseOut, selections=None, model: b
                     co.fail("C15|geff|store-unreadable", f"{S}", "divergence")
                     continue
                 ids = set(S["ids"])
-                if ids - keep:
-                    co.fail("C15|geff|extra-node", f"selection {sorted(sel)}: nodes {sorted(ids - keep)} exported, expected {sorted(keep)}")
-                if keep - ids:
-                    miss = sorted(keep - ids)
-                    co.fail("C15|geff|" + ("missing-selected-node" if set(miss) & set(sel) else "missing-ancestor"),
-                            f"selection {sorted(sel)}: nodes {miss} not exported (expected {sorted(keep)})")
+                nf = _nodeset_fails("geff", ids, keep, sel, stale_g)
+                for sg, w in nf:
+                    co.fail(sg, w)
+                if nf and nf[0][0].endswith("stale-ancestors-after-edit"):
+                    continue
                 ge = set(S["eids"])
                 if ge - exp_edges:
                     co.fail("C15|geff|edge-extra", f"edges {sorted(ge - exp_edges)}")
@@ -1051,7 +1116,7 @@ def check_c15(tracks, rng: random.Random, co: CaseOut, selections=None, model: b
                              str_geff_store(S, T, I))
         # ---------------------------------------------------------------- malformed stream
         # a selection naming a node that is not in the graph: networkx refuses (both exporters)
-        if model and selections and not any(k == "no-malformed" for k, _ in selections):
+        if model and malformed and selections:
             unk = max([0] + [int(n) for n in g.nodes]) + 1 + rng.randrange(5)
             bad = [unk] + [int(n) for n in list(g.nodes)[:1]]
             for fmt, call in (("csv", lambda: export_to_csv(tracks, d / "m.csv", node_ids=set(bad))),
@@ -1342,7 +1407,8 @@ def check_c16(tracks, rng: random.Random, co: CaseOut, model: bool = True, only:
 # ------------------------------------------------------------------------------------------------
 # running cases, shrinking, entry points
 # ------------------------------------------------------------------------------------------------
-def run_check(prop: str, tracks, seed: int, extra: dict | None = None, model: bool = True) -> CaseOut:
+def run_check(prop: str, tracks, seed: int, extra: dict | None = None, model: bool = True,
+              stale_g=None) -> CaseOut:
     extra = extra or {}
     rng = random.Random(seed)
     co = CaseOut()
@@ -1354,10 +1420,27 @@ def run_check(prop: str, tracks, seed: int, extra: dict | None = None, model: bo
     elif prop == "C15":
         sels = extra.get("selections")
         check_c15(tracks, rng, co, selections=[(k, list(s)) for k, s in sels] if sels else None, model=model,
-                  fmts=tuple(extra.get("fmts") or ("csv", "geff")))
+                  fmts=tuple(extra.get("fmts") or ("csv", "geff")), stale_g=stale_g, malformed=stale_g is None)
     else:
         check_c16(tracks, rng, co, model=model, only=extra.get("only"))
     return co
+
+
+def run_sequence(prop: str, ses: Session, seed: int, extra: dict | None, model: bool = True) -> list[CaseOut]:
+    """check → (extra['seq']: edits on the same object → check again).  One CaseOut per phase."""
+    extra = extra or {}
+    outs = [run_check(prop, ses.tracks, seed, {k: v for k, v in extra.items() if k != "seq"}, model)]
+    seq = extra.get("seq")
+    if seq:
+        g0 = ses.tracks.graph.copy()
+        for op in seq["mid_ops"]:
+            ses.apply(copy.deepcopy(op))
+        if state_valid(ses.tracks) is None:
+            e2 = dict(seq.get("extra2") or {})
+            if extra.get("fmts") and "fmts" not in e2:
+                e2["fmts"] = extra["fmts"]
+            outs.append(run_check(prop, ses.tracks, seq["seed2"], e2, model, stale_g=g0))
+    return outs
 
 
 def make_case(rng: random.Random, intensify: bool) -> tuple[dict, list[dict], Session] | None:
@@ -1374,52 +1457,84 @@ def reproduces(prop: str, spec: dict, ops: list[dict], seed: int, extra: dict, s
         ses = build(spec, ops)
         if state_valid(ses.tracks):
             return False
-        co = run_check(prop, ses.tracks, seed, extra, model=False)
+        cos = run_sequence(prop, ses, seed, extra, model=False)
     except Exception:  # noqa: BLE001
         return False
-    return any(s == sig for _, s, _ in co.fails)
+    return any(s == sig for co in cos for _, s, _ in co.fails)
 
 
-def shrink(prop: str, spec: dict, ops: list[dict], seed: int, extra: dict, sig: str, budget_s: float = 25.0) -> dict:
+def _get_sels(extra: dict, phase: int):
+    if phase == 1:
+        return extra.get("selections")
+    return ((extra.get("seq") or {}).get("extra2") or {}).get("selections")
+
+
+def _with_sels(extra: dict, phase: int, sels) -> dict:
+    e = copy.deepcopy(extra)
+    if phase == 1:
+        e["selections"] = sels
+    else:
+        e["seq"]["extra2"]["selections"] = sels
+    return e
+
+
+def shrink(prop: str, spec: dict, ops: list[dict], seed: int, extra: dict, sig: str, budget_s: float = 30.0) -> dict:
+    """delta debugging over: edits before the first export, edits between the exports (if any),
+    the pinned selections of both phases, the nodes of the initial state"""
     t0 = _time.time()
-    extra = dict(extra)
+    extra = copy.deepcopy(extra)
     fmt = sig.split("|")[1] if prop in ("C14", "C15") else None
-    if prop == "C14" and fmt in ("csv", "csv-display", "geff", "internal"):
+    if (prop == "C14" and fmt in ("csv", "csv-display", "geff", "internal")) or (prop == "C15" and fmt in ("csv", "geff")):
         extra["fmts"] = [fmt]
-    if prop == "C15" and fmt in ("csv", "geff"):
-        extra["fmts"] = [fmt]
-    if prop == "C16":
-        extra["only"] = extra.get("only")
     if not reproduces(prop, spec, ops, seed, extra, sig):
         extra.pop("fmts", None)
         if not reproduces(prop, spec, ops, seed, extra, sig):
             return {"spec": spec, "ops": ops, "check_seed": seed, "extra": extra, "note": "not minimised (did not reproduce in isolation)"}
+
+    def left() -> bool:
+        return _time.time() - t0 < budget_s
+
+    if extra.get("seq") and reproduces(prop, spec, ops, seed, {k: v for k, v in extra.items() if k != "seq"}, sig):
+        extra.pop("seq")  # the failure does not need the second phase
     changed = True
-    while changed and _time.time() - t0 < budget_s:
+    while changed and left():
         changed = False
         for i in range(len(ops)):
             cand = ops[:i] + ops[i + 1:]
             if reproduces(prop, spec, cand, seed, extra, sig):
                 ops, changed = cand, True
                 break
-    if prop == "C15" and extra.get("selections"):
-        sels = [(k, list(s)) for k, s in extra["selections"]]
-        for k, s in sels:  # one failing selection is enough
-            e2 = {**extra, "selections": [(k, s)]}
-            if reproduces(prop, spec, ops, seed, e2, sig):
-                extra = e2
-                break
-        changed = True
-        while changed and _time.time() - t0 < budget_s and len(extra["selections"]) == 1:
-            changed = False
-            k, s = extra["selections"][0]
-            for x in list(s):
-                e2 = {**extra, "selections": [(k, [y for y in s if y != x])]}
-                if reproduces(prop, spec, ops, seed, e2, sig):
-                    extra, changed = e2, True
-                    break
     changed = True
-    while changed and _time.time() - t0 < budget_s:
+    while changed and left() and extra.get("seq"):
+        changed = False
+        mid = extra["seq"]["mid_ops"]
+        for i in range(len(mid)):
+            e2 = copy.deepcopy(extra)
+            e2["seq"]["mid_ops"] = mid[:i] + mid[i + 1:]
+            if reproduces(prop, spec, ops, seed, e2, sig):
+                extra, changed = e2, True
+                break
+    if prop == "C15":
+        for phase in ((2, 1) if extra.get("seq") else (1,)):
+            sels = _get_sels(extra, phase)
+            if not sels:
+                continue
+            for k, sl in [(k, list(x)) for k, x in sels]:  # one selection per phase is enough
+                e2 = _with_sels(extra, phase, [(k, sl)])
+                if left() and reproduces(prop, spec, ops, seed, e2, sig):
+                    extra = e2
+                    break
+            changed = True
+            while changed and left() and len(_get_sels(extra, phase)) == 1:
+                changed = False
+                k, sl = _get_sels(extra, phase)[0]
+                for x in list(sl):
+                    e2 = _with_sels(extra, phase, [(k, [y for y in sl if y != x])])
+                    if reproduces(prop, spec, ops, seed, e2, sig):
+                        extra, changed = e2, True
+                        break
+    changed = True
+    while changed and left():
         changed = False
         for x in list(spec["nodes"]):
             s2 = copy.deepcopy(spec)
@@ -1428,8 +1543,11 @@ def shrink(prop: str, spec: dict, ops: list[dict], seed: int, extra: dict, sig: 
             if s2.get("seg"):
                 s2["seg"] = [0 if v == x["id"] else v for v in s2["seg"]]
             e2 = extra
-            if prop == "C15" and extra.get("selections"):
-                e2 = {**extra, "selections": [(k, [y for y in s if y != x["id"]]) for k, s in extra["selections"]]}
+            if prop == "C15":
+                for phase in (1, 2):
+                    sels = _get_sels(e2, phase)
+                    if sels:
+                        e2 = _with_sels(e2, phase, [(k, [y for y in sl if y != x["id"]]) for k, sl in sels])
             if reproduces(prop, s2, ops, seed, e2, sig):
                 spec, extra, changed = s2, e2, True
                 break
@@ -1471,39 +1589,76 @@ def _one_case(prop: str, spec: dict, ops: list[dict], ses: Session, seed: int, r
     if any(v is None for _, a in g.nodes(data=True) for v in a.values()):
         res.count("has:none-valued-attribute")
     extra = _sel_extra(prop, tracks, seed)
-    if prop == "C15":
-        # same rng consumption as check_c15 would do: selections are passed explicitly
-        pass
     co = run_check(prop, tracks, seed, extra)
-    res.evaluations += co.evals
-    res.nontrivial.update(co.nontrivial)
-    for k, v in co.counts.items():
-        res.count(k, v)
     if len(res.samples) < 3 and tracks.graph.number_of_nodes() >= 3 and ops:
         res.samples.append({"spec": {k: spec[k] for k in ("cfg", "ndim", "scale", "nodes", "edges") if k in spec},
                             "ops": ops[:10]})
-    failed = False
-    for kind, sig, what in co.fails:
-        failed = True
-        res.count(("oracle-fail:" if kind != "divergence" else "divergence:") + sig)
-        seen[sig] = seen.get(sig, 0) + 1
-        if seen[sig] <= 1:
-            if kind == "oracle":
-                rp = shrink(prop, spec, ops, seed, extra, sig)
-                co2 = None
-                try:
-                    co2 = run_check(prop, build(rp["spec"], rp["ops"]).tracks, rp["check_seed"], rp["extra"], model=False)
-                except Exception:  # noqa: BLE001
-                    pass
-                w2 = [w for _, s, w in (co2.fails if co2 else []) if s == sig]
-                res.failures.append(Failure("oracle", prop, sig, w2[0] if w2 else what, rp))
+    phases: list[tuple[CaseOut, dict]] = [(co, extra)]
+    # ---- second phase on the SAME object: edit again (count-preserving re-linkings), export again
+    rng2 = random.Random(seed ^ 0x5EED)
+    if stream == "random" and tracks.graph.number_of_edges() >= 1 and \
+            rng2.random() < {"C15": 0.65, "C14": 0.25, "C16": 0.25}[prop]:
+        g0 = tracks.graph.copy()
+        try:
+            mid = gen_relink_ops(rng2, ses, rng2.randint(1, 4))
+        except Hang:
+            res.count("skipped:second-phase-hang")
+            mid = None
+        if mid is not None:
+            bad = state_valid(tracks)
+            if bad:
+                res.count(f"skipped:second-phase-state-outside-domain:{bad}")
             else:
-                res.failures.append(Failure(kind, prop, sig, what,
-                                            {"spec": spec, "ops": ops, "check_seed": seed, "extra": extra}))
+                e2: dict = {}
+                if prop == "C15":
+                    now = set(int(n) for n in tracks.graph.nodes)
+                    same = [(k, [n for n in sl if n in now]) for k, sl in extra["selections"]
+                            if k in ("random", "single-non-root", "leaf-below-division", "several-lineages")]
+                    fresh = [(k + "-fresh", sl) for k, sl in gen_selections(rng2, tracks.graph) if k in ("random", "single-non-root")]
+                    e2 = {"selections": same[:3] + fresh[:2]}
+                seed2 = rng2.getrandbits(32)
+                co2 = run_check(prop, tracks, seed2, e2, stale_g=g0)
+                full = {**extra, "seq": {"mid_ops": mid, "seed2": seed2, "extra2": e2}}
+                phases.append((co2, full))
+                res.count("second-phase:cases")
+                res.count("second-phase:exports-or-calls", co2.evals)
+                changed = set(g0.edges) != set(tracks.graph.edges)
+                if changed and (g0.number_of_nodes(), g0.number_of_edges()) == \
+                        (tracks.graph.number_of_nodes(), tracks.graph.number_of_edges()):
+                    res.count("second-phase:edges-changed-with-same-node-and-edge-counts")
+                elif changed:
+                    res.count("second-phase:edges-changed")
+                else:
+                    res.count("second-phase:edges-unchanged")
+                for op in mid:
+                    res.count("second-phase:op:" + op["op"])
+    failed = False
+    for cox, ex in phases:
+        res.evaluations += cox.evals
+        res.nontrivial.update(cox.nontrivial)
+        for k, v in cox.counts.items():
+            res.count(k, v)
+        for kind, sig, what in cox.fails:
+            failed = True
+            res.count(("oracle-fail:" if kind != "divergence" else "divergence:") + sig)
+            seen[sig] = seen.get(sig, 0) + 1
+            if seen[sig] <= 1:
+                if kind == "oracle":
+                    rp = shrink(prop, spec, ops, seed, ex, sig)
+                    w2: list[str] = []
+                    try:
+                        cos = run_sequence(prop, build(rp["spec"], rp["ops"]), rp["check_seed"], rp["extra"], model=False)
+                        w2 = [w for c in cos for _, sg, w in c.fails if sg == sig]
+                    except Exception:  # noqa: BLE001
+                        pass
+                    res.failures.append(Failure("oracle", prop, sig, w2[0] if w2 else what, rp))
+                else:
+                    res.failures.append(Failure(kind, prop, sig, what,
+                                                {"spec": spec, "ops": ops, "check_seed": seed, "extra": ex}))
+        for line, (label, real) in zip(cox.lines, cox.expect):
+            pend.append((line, label, real, {"spec": spec, "ops": ops, "check_seed": seed, "extra": ex}))
     if failed:
         res.count("cases-failing-oracle")
-    for line, (label, real) in zip(co.lines, co.expect):
-        pend.append((line, label, real, {"spec": spec, "ops": ops, "check_seed": seed, "extra": extra}))
 
 
 FIXED_CASES: list[dict] = [
@@ -1576,7 +1731,7 @@ def _shard(args) -> Result:
     return res
 
 
-BUDGET = {"quick": {"C14": 288, "C15": 176, "C16": 256}, "thorough": {"C14": 3200, "C15": 1200, "C16": 3200}}
+BUDGET = {"quick": {"C14": 272, "C15": 144, "C16": 240}, "thorough": {"C14": 3200, "C15": 1200, "C16": 3200}}
 
 
 def run(prop: str, tier: str, seed: int, intensify: bool = False) -> Result:
@@ -1634,24 +1789,31 @@ def replay(prop: str, replay_obj: dict) -> int:
         if bad:
             print("state is outside the property's domain:", bad)
         extra = c.get("extra") or {}
-        co = run_check(prop, t, c.get("check_seed", 0), extra)
-        for kind, sig, what in co.fails:
-            print(f"{'ORACLE FAIL' if kind != 'divergence' else 'DIVERGENCE'}: {sig}: {what}")
-            rc = 1
-        if not co.fails:
-            print("oracle  : holds on this input")
-        if co.lines:
-            outs = _driver().run(co.lines)
-            for (label, real), m in zip(co.expect, outs):
-                same = real == m
-                if not same or (c.get("label") and c["label"].split(" (")[0] == label.split(" (")[0]):
-                    print(f"--- {label}: {'agree' if same else 'DIVERGENCE'}")
-                    print("   code :", real[:1500])
-                    print("   model:", m[:1500])
-                    j = co.expect.index((label, real))
-                    if j in co.aux:
-                        print("   model of the exporter BEFORE the repair (D5):", _driver().run([co.aux[j]])[0][:600])
-                if not same:
-                    rc = 1
-            print(f"model   : {len(co.lines)} comparisons, {sum(1 for (_, r), m in zip(co.expect, outs) if r != m)} differ")
+        seq = extra.get("seq")
+        if seq:
+            print("then    : export / query (phase 1), edits on the same object", json.dumps(seq["mid_ops"]),
+                  ", export / query again (phase 2)", json.dumps(seq.get("extra2")))
+        cos = run_sequence(prop, ses, c.get("check_seed", 0), extra)
+        if seq:
+            print("tracks after the second edits: edges", list(t.graph.edges))
+        for ph, co in enumerate(cos, 1):
+            for kind, sig, what in co.fails:
+                print(f"{'ORACLE FAIL' if kind != 'divergence' else 'DIVERGENCE'} (phase {ph}): {sig}: {what}")
+                rc = 1
+            if not co.fails:
+                print(f"oracle  : holds in phase {ph}")
+            if co.lines:
+                outs = _driver().run(co.lines)
+                for j, ((label, real), m) in enumerate(zip(co.expect, outs)):
+                    same = real == m
+                    if not same or (c.get("label") and c["label"].split(" (")[0] == label.split(" (")[0]):
+                        print(f"--- phase {ph}, {label}: {'agree' if same else 'DIVERGENCE'}")
+                        print("   code :", real[:1500])
+                        print("   model:", m[:1500])
+                        if j in co.aux:
+                            print("   model of the exporter BEFORE the repair (D5):", _driver().run([co.aux[j]])[0][:600])
+                    if not same:
+                        rc = 1
+                print(f"model   : phase {ph}: {len(co.lines)} comparisons, "
+                      f"{sum(1 for (_, r), m in zip(co.expect, outs) if r != m)} differ")
     return rc
